@@ -821,7 +821,7 @@ func checkRouter(sc routerScenario, r *routerResult) []connVerdict {
 		}
 		// C17: round robin: any n consecutive calls of one batch over a stable list of n>=2 go to n distinct targets
 		stable := i > 0 && strings.Join(parseList(r.obs[i-1], "list"), ",") == strings.Join(list, ",")
-		if (f[0] == "route" || f[0] == "gos" || f[0] == "rts") && director == "-" && len(list) >= 2 && stable {
+		if (f[0] == "route" || f[0] == "gos" || f[0] == "rts") && director == "-" && len(list) >= 2 && stable && !contains(newSent, "") {
 			n := len(list)
 			switch sc.Policy {
 			case "rr", "leastprobe":
@@ -984,6 +984,8 @@ func routerCorpus() []routerScenario {
 	mk("shrink-with-cursor", "rr", "health A 1", "health B 1", "health C 1", "update A,B,C", "wait", "route 2", "health C 0", "wait", "wait", "route 3", "health C 1", "wait", "wait", "wait", "route 1", "health A 0", "wait", "wait", "route 4")
 	mk("shrink-with-cursor-at-the-end", "rr", "health A 1", "health B 1", "health C 1", "health D 1", "update A,B,C,D", "wait", "route 3", "health D 0", "wait", "wait", "route 2", "health B 0", "wait", "wait", "gos 3")
 	mk("slow-probe-does-not-freeze-routing", "rr", "health A 1", "slowprobe B", "update A,B", "wait", "wait", "route 6", "gos 3", "wait", "route 4", "close")
+	mk("calls-after-close-with-live-targets", "rr", "health A 1", "health B 1", "update A,B", "wait", "route 2", "close", "route 2", "ctxs 1", "gos 2", "rts 1", "pings 1", "close", "route 1")
+	mk("calls-after-close-with-a-director", "rr", "health A 1", "health Z 1", "update A", "wait", "director Z", "route 1", "close", "route 2", "ctxs 1", "gos 1")
 	mk("waiters-released", "rr", "health A 0", "update A", "wait", "park 3 call", "park 2 go", "health A 1", "wait", "settle", "route 1")
 	mk("waiters-timeout", "rr", "health A 0", "update A", "wait", "park 2 call", "park 1 ctx", "park 1 go", "park 1 rt", "park 1 ping", "expire", "settle")
 	mk("waiters-close", "rr", "health A 0", "update A", "wait", "park 2 call", "park 1 ctx", "park 1 go", "close", "settle", "route 1", "gos 1", "close")
